@@ -5,6 +5,9 @@ exposed a change. Heads that are truncated in the log, that carry implementation
 import collections, glob, os, re, subprocess
 ROOT = os.path.dirname(os.path.dirname(os.path.abspath(__file__)))
 HARNESS = os.path.join(ROOT, ".build", "harness-target", "release", "harness")
+# the binary may have been built against a seeded change that has been reverted since: rebuild first
+subprocess.run(["cargo", "build", "--release", "--offline"], cwd=os.path.join(ROOT, "harness"), check=True,
+               stdout=subprocess.DEVNULL, stderr=subprocess.DEVNULL)
 heads = collections.defaultdict(list)
 for log in sorted(glob.glob(os.path.join(ROOT, "seeded", "*", "validation.log"))):
     sid = log.split("/")[-2]
@@ -19,7 +22,11 @@ for log in sorted(glob.glob(os.path.join(ROOT, "seeded", "*", "validation.log"))
         h = f"{pid} {op} {rest}".rstrip()
         if h.count("(") != h.count(")"):
             continue
-        r = subprocess.run([HARNESS, "exec"], input=h + "\n", stdout=subprocess.PIPE, stderr=subprocess.PIPE, text=True)
+        try:
+            r = subprocess.run([HARNESS, "exec"], input=h + "\n", stdout=subprocess.PIPE, stderr=subprocess.PIPE, text=True, timeout=60)
+        except subprocess.TimeoutExpired:
+            print("too slow for the corpus (left out):", sid, h[:120])
+            continue
         if r.returncode != 0 or " => " not in r.stdout:
             continue
         if h not in [x[1] for x in heads[pid]]:
